@@ -17,7 +17,7 @@ ASSUMPTIONS = ["numpy dense arithmetic is correct", "PauliTerm.coefficient/.oper
                "coefficients are far (>=0.25) from the library's 1e-8 tolerance edge"]
 BOUNDS = {"quick": {"qubits": 3, "strings": "16 on {0,1} + 4 on {2} (all ordered pairs) + 64x64 products", "sum_terms": 2, "powers": "0..4"},
           "thorough": {"qubits": 3, "strings": "all 64 (all 4096 ordered pairs x 3 ops)", "sum_terms": 3, "powers": "0..4"}}
-N = 3
+N = 4
 ATOL = 1e-9
 K = [1.0, -0.5, [0, 2], [1, -1], 0, 3]
 SCALARS = [2, -0.5, [0, 1], [0.25, 0.5]]
@@ -251,6 +251,8 @@ def run(run):
         S = strings([0, 1, 2])
         pairs = [(a, b) for a in S for b in S]
         cases = [{"op": op, "a": T(1.0, a), "b": T(1.0, b)} for a, b in pairs for op in ("mul", "add", "sub")]
+        S4 = strings([0, 1, 2, 3])
+        cases += [{"op": "mul", "a": T(1.0, a), "b": T(1.0, b)} for a in S4 for b in S4]   # all 65 536 ordered products on four qubits
     else:
         S = strings([0, 1]) + strings([2])[1:]
         cases = [{"op": op, "a": T(1.0, a), "b": T(1.0, b)} for a in S for b in S for op in ("mul", "add", "sub")]
